@@ -30,7 +30,7 @@ def confirm(mdir):
     os.makedirs(os.path.dirname(os.path.join(wt, rel)), exist_ok=True)
     shutil.copy(os.path.join(mdir, "demo.rs"), os.path.join(wt, rel))
     rc1, out1 = sh("%s cargo test --offline -p %s --test %s 2>&1 | tail -15" % (env, pkg, name), wt)
-    res["demo_fails_with_change"] = ("test result: FAILED" in out1 or "panicked" in out1) and "error[" not in out1
+    res["demo_fails_with_change"] = ("test result: FAILED" in out1 or "panicked" in out1 or "signal:" in out1) and "error[" not in out1
     res["demo_with"] = out1[-300:]
     sh("git apply -R %s/patch.diff" % mdir, wt)
     rc2, out2 = sh("%s cargo test --offline -p %s --test %s 2>&1 | tail -8" % (env, pkg, name), wt)
